@@ -300,11 +300,30 @@ func (fi *fmtInfo) scenario(T string, extra map[*types.Var]core.AV, nonEmptySep 
 		if a, ok := extra[f]; ok {
 			return a, true
 		}
-		if nonEmptySep && f.Name() == "joinSep" {
-			return core.StrAV(" "), true
+		if nonEmptySep && f != fi.tagField && fi.isPortInfoStringField(f) {
+			return core.StrAV(" "), true // the join separator (and any other textual port attribute) is non-empty
 		}
 		return core.Top, false
 	}}
+}
+
+// isPortInfoStringField: f is a string-typed field of PortInfo.
+func (fi *fmtInfo) isPortInfoStringField(f *types.Var) bool {
+	pi := fi.e.P.Named("scipipe", "PortInfo")
+	if pi == nil {
+		return false
+	}
+	st, ok := pi.Underlying().(*types.Struct)
+	if !ok {
+		return false
+	}
+	for i := 0; i < st.NumFields(); i++ {
+		if st.Field(i) == f {
+			b, ok := f.Type().Underlying().(*types.Basic)
+			return ok && b.Kind() == types.String
+		}
+	}
+	return false
 }
 
 // arm returns (cached) the exploration for placeholder type T with the streaming flag and join flag fixed.
